@@ -239,7 +239,8 @@ def _variants(dm):
 
 
 def state_cases(tier):
-    mds = [('none', 'none'), ('text', 'tax'), ('num', 'slash')]
+    # metadata on both axes, on neither, and on exactly one axis
+    mds = [('none', 'none'), ('text', 'tax'), ('num', 'slash'), ('text', 'none'), ('none', 'tax')]
     j = 0
     for dm in (_MATS[:4] if tier == 'quick' else _MATS):
         for lay, z in _variants(dm):
